@@ -33,6 +33,15 @@ ASSUMPTIONS = [
 DRIVER = "source_finder.SourceFinder.find_sources_in_image"
 
 MUTANTS = [
+    ("three-pixel-wide islands fixed to the psf",
+     "AegeanTools/source_finder.py",
+     "            min(data.shape) <= 2\n", "            min(data.shape) <= 3\n",
+     "C01-R12"),
+    ("seven-pixel islands fixed to the psf", "AegeanTools/source_finder.py",
+     "        non_nan_pix = len(data[np.where(np.isfinite(data))].ravel())\n"
+     "        if 4 <= non_nan_pix <= 6:",
+     "        non_nan_pix = len(data[np.where(np.isfinite(data))].ravel())\n"
+     "        if 4 <= non_nan_pix <= 8:", "C01-R12"),
     ("drop +1 in x_pix", "AegeanTools/source_finder.py",
      "x_pix = xo + xmin + 1", "x_pix = xo + xmin", "C01-R1"),
     ("swap offsets", "AegeanTools/source_finder.py",
@@ -105,6 +114,9 @@ MUTANTS = [
      "                          (l[xmin:xmax, ymin:ymax] == 0)", "C01-R11"),
 ]
 TWINS = [
+    ("small-island guard written with a strict bound",
+     "AegeanTools/source_finder.py",
+     "            min(data.shape) <= 2\n", "            min(data.shape) < 3\n"),
     ("radians spelled out", "AegeanTools/wcs_helpers.py",
      "v_sx = (x + sx * np.cos(np.radians(theta)),",
      "v_sx = (x + sx * np.cos(theta * np.pi / 180),"),
@@ -235,6 +247,7 @@ def run(ctx):
                            "cross>"), node=c)
     ctx.floor("C01-R8", n8, 2, "scipy.ndimage.label calls reachable from "
               "blind finding")
+    r12_free_shape(ctx, prog)
     # ---------------------------------------------------------------- R4
     n = rules_num.lmfit_int_uses(ctx, "C01-R4", reach)
     ctx.note("C01-R4: %d int-only uses of coerced lmfit values" % n)
@@ -530,3 +543,103 @@ def r6(ctx, prog):
                       "value: min=%s max=%s value=%s" % (ax, lo, hi, v),
                       node=c)
     ctx.floor("C01-R6", n, 3, "bound definitions in the model builders")
+
+
+def r12_free_shape(ctx, prog):
+    """the point-source shortcut of the parameter estimator applies only
+    where a six-parameter fit is under-determined"""
+    from ..concrete import Unknown, ev
+    from ..core import as_update
+    ctx.rule("C01-R12", "free shape wherever it is determined: an elliptical "
+             "Gaussian has 6 parameters, 3 per axis (amplitude, centre, "
+             "width), so an island with >= 7 finite pixels that is >= 3 "
+             "pixels across in both directions is fitted with free shape -- "
+             "the guards that fix small islands to the psf are interpreted "
+             "for 7 pixels and for a 3 x 50 island and must not fire")
+    fi = prog.func("source_finder.SourceFinder.estimate_lmfit_parinfo")
+    body = list(walk_no_nested(fi.node))
+    # number of finite pixels: name bound to len(...isfinite...)
+    cnt = [s_.targets[0].id for s_ in body if isinstance(s_, ast.Assign)
+           and isinstance(s_.targets[0], ast.Name)
+           and isinstance(s_.value, ast.Call) and norm(s_.value.func) == "len"
+           and "isfinite" in norm(s_.value)]
+    flagv = sorted({(as_update(s_) or ("",))[0] for s_ in body
+                    if isinstance(s_, (ast.Assign, ast.AugAssign))
+                    and as_update(s_) and as_update(s_)[1] is ast.BitOr
+                    and "flags." in as_update(s_)[2]})
+    base = {"flags.FITERRSMALL": 1, "flags.FIXED2PSF": 4, "flags.NOTFIT": 16}
+    for f_ in flagv:
+        base[f_] = 0
+    n = 0
+    # (1) the pixel-count chain, interpreted for 7 finite pixels
+    for iff in body:
+        if not (isinstance(iff, ast.If) and cnt and
+                cnt[0] in names_in(iff.test)):
+            continue
+        # only the head of an if / elif chain
+        chain, x = [], iff
+        while True:
+            chain.append((x.test, x.body))
+            if len(x.orelse) == 1 and isinstance(x.orelse[0], ast.If):
+                x = x.orelse[0]
+            else:
+                chain.append((None, x.orelse))
+                break
+        if any(iff is y for z in body if isinstance(z, ast.If)
+               for y in z.orelse):
+            continue
+        env = dict(base)
+        env[cnt[0]] = 7
+        taken = None
+        try:
+            for t_, b_ in chain:
+                if t_ is None or ev(t_, env):
+                    taken = b_
+                    break
+        except Unknown as u:
+            ctx.unknown_site("C01-R12", fi, "pixel-count guard not "
+                             "interpreted (%s)" % u, node=iff)
+            continue
+        n += 1
+        raised = [st for b in (taken or []) for st in ast.walk(b)
+                  if isinstance(st, (ast.Assign, ast.AugAssign))
+                  and as_update(st) and as_update(st)[1] is ast.BitOr
+                  and "flags." in as_update(st)[2]]
+        ctx.check("C01-R12", fi, "7 finite pixels: " + norm(iff.test, 50),
+                  not raised, "an island with 7 finite pixels (one more "
+                  "than the 6 parameters) is flagged `%s` and its shape "
+                  "fixed to the psf" % (norm(raised[0]) if raised else ""),
+                  node=iff)
+    # (2) the single-summit shortcut, interpreted for a 3 x 50 island
+    for iff in body:
+        if not isinstance(iff, ast.If):
+            continue
+        fixes = [st for b in iff.body for st in ast.walk(b)
+                 if isinstance(st, (ast.Assign, ast.AugAssign))
+                 and as_update(st) and as_update(st)[1] is ast.BitOr
+                 and "FIXED2PSF" in as_update(st)[2]]
+        shp = [x for x in ast.walk(iff.test) if isinstance(x, ast.Attribute)
+               and x.attr == "shape"]
+        if not fixes or not shp:
+            continue
+        for dims in ([3, 50], [50, 3]):
+            env = dict(base)
+            for x in shp:
+                env[norm(x)] = dims
+                env[norm(x) + "[0]"] = dims[0]
+                env[norm(x) + "[1]"] = dims[1]
+            try:
+                fires = bool(ev(iff.test, env))
+            except Unknown as u:
+                ctx.unknown_site("C01-R12", fi, "small-island guard not "
+                                 "interpreted (%s)" % u, node=iff)
+                break
+            n += 1
+            ctx.check("C01-R12", fi, "%d x %d island: %s" %
+                      (dims[0], dims[1], norm(iff.test, 50)), not fires,
+                      "an island %d x %d pixels (three samples across, "
+                      "enough for amplitude, centre and width) takes the "
+                      "point-source shortcut: a resolved source in it is "
+                      "reported with the beam's shape and a wrong flux" %
+                      tuple(dims), node=iff)
+    ctx.floor("C01-R12", n, 3, "small-island guards interpreted")
